@@ -21,7 +21,10 @@ TypeOfNew(ev, n) == ev.ids[CHOOSE i \in DOMAIN ev.ids : ev.ids[i][1] = n][2]
    answers ZeroPartitionCount (recorded by the driver as information); otherwise both must say ok. *)
 Dangling(G) == {r \in UNION {G[n].refs : n \in DOMAIN G} : r \notin DOMAIN G}
 KernelExpected(G) == IF Dangling(G) # {} THEN "ZeroPartitionCount" ELSE "ok"
-CheckerOk(ev, G) == ev.checker = "skipped" \/ (ev.checker = "ran" /\ ev.kernel = KernelExpected(G) /\ ev.system = "ok")
+\* (when the graph itself is not well-formed the invariants below report that; the checkers' verdict is then not constrained)
+CheckerOk(ev, G, T) == \/ ev.checker = "skipped"
+                       \/ (ev.checker = "ran" /\ ev.kernel = KernelExpected(G) /\ ev.system = "ok")
+                       \/ ~(UniqueOwner(G, T) /\ RefsGlobal(G, T))
 
 TInit == TLCSet(42, Rec) /\ l = 1 /\ g = <<>> /\ et = <<>>
 TReset == /\ l <= Len(Tr) /\ Ev.a = "reset"
@@ -30,9 +33,11 @@ TReset == /\ l <= Len(Tr) /\ Ev.a = "reset"
                  ni == NewIds(ev)
              IN /\ g' = [n \in ui |-> UpdOf(ev, n)]
                 /\ et' = [n \in ni |-> TypeOfNew(ev, n)]
-                /\ CheckerOk(ev, g')
+                /\ CheckerOk(ev, g', et')
           /\ l' = l + 1
-TCommit == /\ l <= Len(Tr) /\ Ev.a = "commit"
+\* catalogue transactions state whether the kernel/system rules (NodeGraph.tla) accept or refuse them:
+\* a refused program that commits successfully (or the reverse) is a disagreement between rules and engine
+TCommit == /\ l <= Len(Tr) /\ Ev.a = "commit" /\ Ev.expect \in {"any", Ev.outcome}
            /\ NewIds(Ev) \cap DOMAIN et = {}
            /\ ToSet(Ev.del) \subseteq DOMAIN g
            /\ LET ev == Ev
@@ -42,9 +47,9 @@ TCommit == /\ l <= Len(Tr) /\ Ev.a = "commit"
                   nt == [n \in ni |-> TypeOfNew(ev, n)]
               IN /\ g' = [n \in (DOMAIN g \ ToSet(ev.del)) \cup ui |-> IF n \in ui THEN un[n] ELSE g[n]]
                  /\ et' = [n \in DOMAIN et \cup ni |-> IF n \in ni THEN nt[n] ELSE et[n]]
-                 /\ CheckerOk(ev, g')
+                 /\ CheckerOk(ev, g', et')
            /\ l' = l + 1
-TCheck == /\ l <= Len(Tr) /\ Ev.a = "check" /\ CheckerOk(Ev, g) /\ UNCHANGED <<g, et>> /\ l' = l + 1
+TCheck == /\ l <= Len(Tr) /\ Ev.a = "check" /\ CheckerOk(Ev, g, et) /\ UNCHANGED <<g, et>> /\ l' = l + 1
 TSummary == /\ l <= Len(Tr) /\ Ev.a = "summary" /\ UNCHANGED <<g, et>> /\ l' = l + 1
 TNext == TReset \/ TCommit \/ TCheck \/ TSummary
 TSpec == TInit /\ [][TNext]_<<l, g, et>>
